@@ -629,3 +629,17 @@ PROPS["C07"]["not_decided"] = ["ctx_dtor() internals (poll_destroy, map free)", 
                                "allocation failure of the module table inside ctx_new (returns 0 without a context: seen, not under an obligation -- allocation failure is not modelled in the core units)"]
 # (a real-code unit for process_fd/tmr/sgn/... was tried and dropped: the functions write THROUGH non-first members of the event's union of pointers, which CBMC 6.11 mis-models even with
 # --no-propagation -- three of seven kinds reported values the code cannot produce; left under not_decided of C03 rather than registered with a false alarm)
+U("poll.create", src="units/poll_unit.c", harness="h_poll_create", enforce="poll_create", defines=["V_POLLCD_UNIT"], replace=["v_epoll_create1"], logctx="CORE",
+  props=["C20", "C07", "C04"], contract_files=POLLC, native=False, timeout=300, min_obligations=10)
+U("poll.destroy", src="units/poll_unit.c", harness="h_poll_destroy", enforce="poll_destroy", defines=["V_POLLCD_UNIT"], replace=["v_close"], logctx="CORE",
+  props=["C20", "C07", "C04"], contract_files=POLLC, native=False, timeout=300, min_obligations=10)
+U("ctx.ctx_dtor", src="units/ctx_unit.c", harness="h_ctx_dtor", enforce="ctx_dtor", defines=["V_CTXAPI_UNIT", "V_CTXDTOR_UNIT"], logctx="CORE",
+  replace=["deregister_ctx_src", "m_map_free", "poll_destroy", "fs_destroy"], props=["C20", "C07", "C04"], contract_files=CTXAPI, native=False, timeout=300, min_obligations=20)
+
+PROPS["C20"]["level_text"] += (" poll_create()/poll_destroy() (real epoll.c): one poll descriptor per context, closed exactly once with it; ctx_dtor(): the tick source is removed while the poll set still "
+                               "exists, then the poll descriptor goes -- nothing the context opened survives it.")
+PROPS["C20"]["not_decided"] = ["pid sources (descriptor made through variadic syscall())", "_pipe/init_pubsub_fd (the module's pipe is made with pipe(); its read end is owned by an auto-close source, its write end is closed by reset_module)",
+                               "m_ctx_fd", "whole-program 'all closed at the end' follows from per-object ownership only by argument"]
+PROPS["C07"]["not_decided"] = ["that m_map_iterate(ctx_destroy_mods) reaches every module (C05 bounded)",
+                               "allocation failure of the module table inside ctx_new (returns 0 without a context: seen, not under an obligation -- allocation failure is not modelled in the core units)"]
+PROPS["C07"]["level_text"] += " ctx_dtor(): module table, poll plugin data and (when owned) name / user data are released exactly once."
